@@ -130,7 +130,13 @@ func c13Gen(r *hysim.Rand, tier string) *hysim.Script {
 	}
 	sc.Cfg["kseed"] = int64(r.Uint64() >> 1)
 	sc.Cfg["badklen"] = int64(r.Range(0, 3))
-	sc.Cfg["rd_poll_us"] = r.Pick64(0, 0, 0, 300, 5000, 200000)
+	sc.Cfg["rd_poll_us"] = r.Pick64(0, 0, 0, 0, 0, 5000, 200000)
+	if hysim.RaceMode {
+		// the race-detector twin: cheap runs, and key lengths whose private copy has spare
+		// capacity or not (allocation size classes), since appending to it is where sharing hides
+		sc.Cfg["rd_poll_us"] = 0
+		sc.Cfg["klen"] = int64(r.Pick(5, 16, 32, 33, 36, 40, 50, 56, 64))
+	}
 	for s := 0; s < 2; s++ {
 		nw, nr := r.Range(1, 3), r.Range(1, 3)
 		sc.Cfg[fmt.Sprintf("nw%d", s)] = int64(nw)
@@ -163,6 +169,9 @@ func c13Gen(r *hysim.Rand, tier string) *hysim.Script {
 	}
 	zr := c13ZeroRateQuick
 	nops := r.Range(6, 40)
+	if hysim.RaceMode {
+		nops = r.Range(6, 16)
+	}
 	if tier == "thorough" {
 		zr = c13ZeroRateThorough
 		nops = r.Range(6, 150)
@@ -189,7 +198,8 @@ func c13Gen(r *hysim.Rand, tier string) *hysim.Script {
 			sc.Ops = append(sc.Ops, hysim.Op{K: "t", A: []int64{r.LogUniform(1, 20000)}})
 		}
 	}
-	if r.Chance(1, 40) {
+	if !hysim.RaceMode && r.Chance(1, 40) {
+		// (not in the race-detector twin, whose runs are an order of magnitude slower)
 		// a long uninterrupted run of junk (a flood, a scanner): dropping must cost nothing per
 		// packet - the run executes under a small goroutine stack limit
 		at := r.Intn(len(sc.Ops) + 1)
